@@ -461,14 +461,14 @@ Example lint_ops_eq_ref_witness : exists op lty lint interp p rty form,
   In (op, lty, lint, interp) obs_ops /\ In (p, rty, form) op_cells_base /\ In op assign_ops /\
   N.testbit lint p = true /\ ref_assign op lty rty form = true.
 Proof.
-  (* set var.l += <FLOAT variable>  with an INTEGER target: position 8*1+1 = 9 *)
+  (* set var.l += <FLOAT variable>  with an INTEGER target: position 14*1+1 = 15 *)
   destruct (find (fun r => match r with (op, lty, lint, _) =>
-                    String.eqb op "+=" && String.eqb lty "INTEGER" && N.testbit lint 9 end) obs_ops)
+                    String.eqb op "+=" && String.eqb lty "INTEGER" && N.testbit lint 15 end) obs_ops)
     as [[[[op lty] lint] interp]|] eqn:E.
   - pose proof (find_some _ _ E) as [Hin Hb].
     apply andb_true_iff in Hb. destruct Hb as [Hb Hl]. apply andb_true_iff in Hb. destruct Hb as [Ho Ht].
     apply String.eqb_eq in Ho. apply String.eqb_eq in Ht. subst op lty.
-    exists "+=", "INTEGER", lint, interp, 9, "FLOAT", "local".
+    exists "+=", "INTEGER", lint, interp, 15, "FLOAT", "local".
     split; [exact Hin|]. split; [vm_compute; tauto|]. split; [vm_compute; tauto|]. split; [exact Hl|vm_compute; reflexivity].
   - vm_compute in E. discriminate.
 Qed.
